@@ -5,8 +5,14 @@ fragment changes; both results are committed.  Never run by a check."""
 import json, glob, os, subprocess
 ROOT = os.path.dirname(os.path.dirname(os.path.abspath(__file__)))
 checks = []
+# manifest.d/enabled.txt: the properties the coordinator has accepted (one id per line); fragments of
+# checks still being built are not registered
+en_file = os.path.join(ROOT, "manifest.d", "enabled.txt")
+enabled = set(open(en_file).read().split()) if os.path.exists(en_file) else None
 for f in sorted(glob.glob(os.path.join(ROOT, "manifest.d", "C*.json"))):
-    checks.append(json.load(open(f)))
+    c = json.load(open(f))
+    if enabled is None or c["property_id"] in enabled:
+        checks.append(c)
 claimed = {c["property_id"] for c in checks}
 na_file = os.path.join(ROOT, "manifest.d", "not_applicable.json")
 na_reasons = json.load(open(na_file)) if os.path.exists(na_file) else {}
@@ -22,7 +28,7 @@ m = {"version": 1, "setup_cmd": "./setup.sh", "hooks": hooks,
 json.dump(m, open(os.path.join(ROOT, "MANIFEST.json"), "w"), indent=1)
 fs = []
 for f in sorted(glob.glob(os.path.join(ROOT, "findings.d", "*.json"))):
-    fs += json.load(open(f))
+    fs += json.load(open(f))   # findings of checks not yet registered are listed too: they are facts about /repo
 k = {"_comment": "Committed list of genuine defects of iesahin/xvc found by the checks. 'open' entries are reported as KNOWN-FINDING lines and suppress only failures whose shrunk input falls in their class; 'fixed' entries suppress nothing. Assembled from findings.d/ by tools/mkmanifest.py; never written at run time.",
      "findings": fs}
 json.dump(k, open(os.path.join(ROOT, "known_findings.json"), "w"), indent=1)
